@@ -39,7 +39,7 @@ theorem c11_encode_decode_encode (crc : Bytes → UInt32) (m : Module) (h : m.wf
 reproduces the module" for modules that come out of `decode`).  Whatever a byte string decodes to,
 encoding and decoding it again gives the same module — provided its type tables are laid out
 canonically (`Module.offsetsCanonical`: no stray bytes in front of the first type entry, the one
-thing the decoder accepts and `encode` never writes; see `c11_roundtrip_needs_canonical_offsets`)
+thing the decoder accepts and `encode` never writes; see `c11_counterexample_noncanonical_offsets`)
 and the container is not within 1 MiB of 4 GiB. -/
 theorem c11_decode_encode_decode_partial (crc : Bytes → UInt32) (bytes : Bytes) (m : Module)
     (h : decode crc bytes = .ok m) (hcan : m.offsetsCanonical = true)
@@ -181,20 +181,6 @@ theorem c11_apply_only_validated (crc : Bytes → UInt32) (rt : RtView) (bytes :
 
 /-! ## non-vacuity: the hypotheses of the theorems above are satisfiable -/
 
-/-- a small module with every required section: one program whose body jumps to its end, one
-resource with one task -/
-def exModule (owner : UInt32) : Module :=
-  { major := 1, minor := 1, flags := 0,
-    sections := [
-      ⟨idStringTable, 0, .stringTable [[0x52], [0x54], [0x4d]]⟩,     -- "R", "T", "M"
-      ⟨idTypeTable, 0, .typeTable { offsets := [8], entries := [⟨.primitive, none, .primitive 1 0⟩] }⟩,
-      ⟨idConstPool, 0, .constPool [⟨0, [1]⟩]⟩,
-      ⟨idRefTable, 0, .refTable [⟨.io, owner, 0, []⟩]⟩,
-      ⟨idPouIndex, 0, .pouIndex [⟨1, 2, .program, 0, 5, 0, 0, none, none, [], none⟩]⟩,
-      ⟨idPouBodies, 0, .pouBodies [0x02, 0, 0, 0, 0]⟩,
-      ⟨idResourceMeta, 0, .resourceMeta [⟨0, 1, 2, 3, [⟨1, 0, 1000, none, [2], [0]⟩]⟩]⟩,
-      ⟨idIoMap, 0, .ioMap []⟩ ] }
-
 example : (exModule 0).wf = true := by rfl
 example : validate (exModule 0) = .ok () := by rfl
 example : ∃ md, metadata (exModule 0) = .ok md := ⟨_, rfl⟩
@@ -203,16 +189,19 @@ example : metadata (exModule 3) = .error (.invalidSection .invalidIoArea) := by 
 example : validateInstructionStream [] [] [0x02, 0, 0, 0, 0] = .ok () := by rfl
 example : validateConstEntryFuel 0 [] 65 ⟨.primitive, none, .primitive 1 0⟩ [7] = .ok ((), []) := by rfl
 
-def crc0 : Bytes → UInt32 := fun _ => 0
 example : ∃ b, encode crc0 (exModule 0) = .ok b ∧ decode crc0 b = .ok (exModule 0) :=
   c11_decode_encode crc0 _ (by rfl)
 example : (exModule 0).offsetsCanonical = true := by rfl
-
-/-- a type table payload with four stray bytes between the offset table and the only entry -/
-def gapPayload : Bytes :=
-  [1, 0, 0, 0, 12, 0, 0, 0, 0xAA, 0xBB, 0xCC, 0xDD, 0, 0, 0, 0, 0xFF, 0xFF, 0xFF, 0xFF, 1, 0, 0, 0]
-def gapTable (off : UInt32) : TypeTable :=
-  { offsets := [off], entries := [⟨.primitive, none, .primitive 1 0⟩] }
+set_option maxRecDepth 8192 in
+example : ∃ bytes m, decode crc0 bytes = .ok m ∧ m.offsetsCanonical = true ∧
+    bytes.length + 1048576 < 4294967296 := by
+  obtain ⟨b, he, hd⟩ := c11_decode_encode crc0 (exModule 0) (by rfl)
+  refine ⟨b, _, hd, by rfl, ?_⟩
+  have hl : (encode crc0 (exModule 0)).map List.length = .ok 320 := by rfl
+  rw [he] at hl
+  simp only [Except.map, Except.ok.injEq] at hl
+  omega
+example : boundedCapacity 0xFFFFFFFF 100 = 100 := by rfl
 
 /-- **The `wf` guard of `c11_decode_encode` is needed (and is the only deviation from a literal
 reading of "decoding an encoded module reproduces the module").**  The decoder accepts a type table
@@ -220,7 +209,7 @@ whose first entry does not start right behind the offset table and keeps the off
 `TypeTable.offsets`; `encode` always writes the canonical layout.  So the module decoded from such
 (hand-crafted) bytes is not reproduced by `decode ∘ encode` — the offsets differ, nothing else.
 Compiler-emitted modules carry the canonical offsets (`compute_type_offsets_for_entries`). -/
-theorem c11_roundtrip_needs_canonical_offsets :
+theorem c11_counterexample_noncanonical_offsets :
     decTypeTable 1 gapPayload = .ok (gapTable 12) ∧ (gapTable 12).wf 1 = false ∧
     decTypeTable 1 (encTypeTable 1 (gapTable 12)) = .ok (gapTable 8) ∧ gapTable 12 ≠ gapTable 8 :=
   ⟨by rfl, by rfl, by rfl, by decide⟩
